@@ -183,14 +183,13 @@ def eval_text(ck, name, cases_txt):
     txt = (cases_txt +
            "Definition M := Eval vm_compute in mismatches cases.\nPrint M.\n"
            "Definition V := Eval vm_compute in spec_violations cases.\nPrint V.\n"
-           "Definition K := Eval vm_compute in short_parent_hits cases.\nPrint K.\n"
            "Definition R := Eval vm_compute in regressions cases.\nPrint R.\n")
     rc, out = ck.coq_eval(name, txt)
     if rc != 0:
         return None, out
     flat = " ".join(out.split())
     res = {}
-    for nm in ("M", "V", "K"):
+    for nm in ("M", "V"):
         m = re.search(nm + r" = \[(.*?)\]\s*: list Z", flat)
         if not m:
             return None, out
@@ -206,7 +205,8 @@ def eval_text(ck, name, cases_txt):
 QUIRKS = {0: "OTLP list-valued attributes yield no tag rows (fixed defect otlp-list-attrs-dropped)",
           1: "Zipkin remoteEndpoint service name overrides the local one (fixed defect zipkin-remote-service-inverted)",
           2: "NDJSON framing keeps decoder state across lines / stores no payload (fixed defect zipkin-ndjson-state)",
-          3: "read path prefers peer.service and rewrites service.name (fixed defect otlp-read-peer-service)"}
+          3: "read path prefers peer.service and rewrites service.name (fixed defect otlp-read-peer-service)",
+          4: "read path takes a Zipkin parent only from a 16-digit payload parentId (fixed defect zipkin-short-parent-id)"}
 
 
 def size_of(c):
@@ -249,7 +249,7 @@ def run_spans(ck):
         return
     cases += [json.loads(l) for l in open(outp)]
     byid = {c["id"]: c for c in cases}
-    tot = {"M": [], "V": [], "K": [], "R": []}
+    tot = {"M": [], "V": [], "R": []}
     # Coq spends ~0.1 s per request elaborating the literal: shards are evaluated by parallel coqc processes
     shard = 100
     heavy = [c for c in cases if size_of(c) > 200000]          # the > 1 MiB request: a shard of its own
@@ -265,7 +265,7 @@ def run_spans(ck):
             return
         for key in tot:
             tot[key] += res[key]
-    mism, viol, known = tot["M"], tot["V"], tot["K"]
+    mism, viol = tot["M"], tot["V"]
     ck.obligation("correspondence: model Spans.decode/read_row = implementation on %d requests (rows, tag rows, payloads, read-back)" % len(cases),
                   not mism, "mismatching case ids: %s; legacy-defect diagnosis (case, defect): %s" % (mism[:10], tot["R"][:10]))
     ck.obligation("spec oracle spec_ok accepts every observed request (one row per span, tag rows of span, read back)",
@@ -293,14 +293,6 @@ def run_spans(ck):
         w = min(short, key=size_of)
         ck.violation({"property": PID, "kind": "OutputQuery over all rows of the request returned %d spans for %d rows" % (w["read_all"], len(w["read"])),
                       "case": w, "replay": "harness spans --cases <file holding the 'case' object on one line> --out /dev/stdout"})
-    kf = ck.known_findings()
-    if known:
-        fid = "zipkin-short-parent-id"
-        w = min((byid[i] for i in known), key=size_of)
-        if fid in kf:
-            ck.report_known(fid, "%d generated Zipkin spans with a parentId that is not 16 hex digits read back without parent (e.g. case %d)" % (len(known), w["id"]))
-        else:
-            ck.violation({"property": PID, "kind": "Zipkin parent id lost on read-back", "case": w})
     # coverage
     distinct = set()
     hist = {}
@@ -352,8 +344,6 @@ def run_replay(ck):
                       "diagnosis": [QUIRKS[q] for (_, q) in res["R"]]})
     elif res["M"]:
         ck.violation({"property": PID, "kind": "model/implementation disagree (replayed)", "case": cs[0]}, no_input=True)
-    if res["K"] and "zipkin-short-parent-id" in ck.known_findings():
-        ck.report_known("zipkin-short-parent-id", "the replayed request has a Zipkin parentId that is not 16 hex digits and reads back without parent")
 
 
 def run(ck):
